@@ -285,6 +285,8 @@ def _str(ip, x=""):
 
     if isinstance(x, (str, int, float, bool)) or x is None:
         return str(x)
+    if isinstance(x, (list, tuple)) and all(isinstance(e, (str, int, float, bool)) or e is None for e in x):
+        return str(list(x)) if isinstance(x, list) else str(tuple(x))
     return FmtStr([("v", x, None)])
 
 
